@@ -79,6 +79,15 @@ def mask_diff_kind(o3, om):
 
 # ------------------------------------------------------------------ signatures
 
+SAFE = {"+": "add", "-": "sub", "*": "mul", "/": "divide", "%": "rem", "<": "lt", ">": "gt", "<=": "lte",
+        ">=": "gte", "=": "eq", "not=": "neq"}
+
+
+def fname(f):
+    """function name usable in a signature / file name"""
+    return SAFE.get(f, f)
+
+
 def classify(f, vals, ctx, route, kind, ref, got):
     """Map a route difference to a stable signature. Known root causes first."""
     rs, rt, _ = split_outcome(ref)
@@ -113,7 +122,7 @@ def classify(f, vals, ctx, route, kind, ref, got):
     # earlier step of the same inlined reduction has changed it meanwhile
     if inline and f in M.VAROPS and "M3" in vals and "v" in vals and len(vals) >= 3:
         return "operand-read-late"
-    return "%s:%s:%s" % (f, route, kind)
+    return "%s:%s:%s" % (fname(f), route, kind)
 
 
 # ------------------------------------------------------------------ replay files
@@ -139,7 +148,7 @@ def replay_text(f, vals, argsform, progs, note):
         lines.append("  [%s '%s]" % (jdn(name), text))
     lines += ["  ])",
               "(each [name form] progs",
-              "  (print name \": \" form)",
+              "  (printf \"%s: %j\" name form)",
               "  (each o (run-prog form argsf) (print \"      => \" o)))",
               ""]
     return "\n".join(lines)
@@ -147,8 +156,14 @@ def replay_text(f, vals, argsform, progs, note):
 
 # ------------------------------------------------------------------ main
 
+SEEN_SIGS = set()              # signatures already reported (or matched against known findings) in this run
+MAX_PROGS_PER_ITEM = 24        # one worker item = some complete (pattern, context) groups of one case
+FLUSH_PROGRAMS = 150000        # programs per batch (bounds memory, gives a time check between batches)
+
+
 def main():
     chk = Check("C15", level="model_checking", description=__doc__)
+    vjanet("fast")      # build now; the engine does not charge build time to the exploration budget
     tier = M.Tier(chk.quick)
     chk.rule("case = (function of the optimizer table, operand value tuple, form pattern L/P/T per position, "
              "context of the call, route); enumerated as full products of the alphabets in model.py, simplest "
@@ -168,23 +183,32 @@ def main():
     bound_names = {1: "arity<=2 + fixed-arity functions + aliasing + contexts", 2: "arity 3", 3: "arity 4..6"}
     completed = []
     samples = []
-    total_secs = len(secs)
-    budget_frac = 0.92
+    budget_frac = 0.9
 
     for bound in bounds:
         if chk.out_of_time(budget_frac):
             chk.cap("bound %d (%s) not started: out of time" % (bound, bound_names[bound]))
             break
         bsecs = [s for s in secs if s[0] == bound]
+        pending = []        # work units
+        npend = 0
         aborted = False
-        for (_, sname, f, gen) in bsecs:
+        for idx, (_, sname, f, gen) in enumerate(bsecs):
             if only and only not in (sname, f, "%s/%s" % (sname, f)):
                 continue
-            if chk.out_of_time(budget_frac):
-                chk.cap("bound %d (%s) incomplete: stopped before %s/%s" % (bound, bound_names[bound], sname, f))
-                aborted = True
-                break
-            run_section(chk, sname, f, gen(), samples)
+            units = list(work_units(sname, f, gen()))
+            pending += units
+            npend += sum(len(u[4]) for u in units)
+            last = idx == len(bsecs) - 1
+            if npend >= FLUSH_PROGRAMS or last:
+                run_units(chk, pending, samples)
+                pending, npend = [], 0
+                if not last and chk.out_of_time(budget_frac):
+                    chk.cap("bound %d (%s) incomplete: stopped after %s/%s" % (bound, bound_names[bound], sname, f))
+                    aborted = True
+                    break
+        if pending:
+            run_units(chk, pending, samples)
         if aborted:
             break
         completed.append(bound)
@@ -193,6 +217,37 @@ def main():
     chk.cov["bound_completed"] = "; ".join("bound %d: %s" % (b, bound_names[b]) for b in completed) or "none"
     chk.cov["functions"] = len(M.ALL_FUNCS)
     chk.finish()
+
+
+def work_units(sname, f, cases):
+    """-> (section, f, vals, argsform, [(pattern, ctx, route, text)], first_of_case) ; a case with many
+    programs is split into several units, each made of complete (pattern, ctx) groups"""
+    pname = "%s/%s" % (sname, f)
+    for (ff, vals, specs) in cases:
+        if M.pointer_order(ff, vals):
+            continue
+        argsform = M.args_text(ff, vals)
+        groups = {}
+        for (pat, ctx, route) in specs:
+            text = M.program(ff, vals, pat, ctx, route)
+            if text is None:
+                continue
+            groups.setdefault((pat, ctx), []).append((pat, ctx, route, text))
+        cur = []
+        first = True
+        for key, g in groups.items():
+            if len(g) < 2:
+                continue        # nothing to compare
+            # app1 of a one-operand call is textually the same program as app
+            seen = set()
+            g = [p for p in g if not (p[3] in seen or seen.add(p[3]))]
+            if cur and len(cur) + len(g) > MAX_PROGS_PER_ITEM:
+                yield (pname, ff, vals, argsform, cur, first)
+                first = False
+                cur = []
+            cur += g
+        if cur:
+            yield (pname, ff, vals, argsform, cur, first)
 
 
 def well_formed(text, nprogs):
@@ -206,49 +261,44 @@ def well_formed(text, nprogs):
     return True
 
 
-def run_section(chk, sname, f, cases, samples):
-    items = []
-    metas = []      # per item: (vals, argsform, [(pattern, ctx, route, text)])
-    for (ff, vals, specs) in cases:
-        if M.pointer_order(ff, vals):
-            continue
-        argsform = M.args_text(ff, vals)
-        progs = []
-        for (pat, ctx, route) in specs:
-            text = M.program(ff, vals, pat, ctx, route)
-            if text is None:
-                continue
-            progs.append((pat, ctx, route, text))
-        # keep only (pattern, ctx) groups that have something to compare
-        keys = {}
-        for p in progs:
-            keys.setdefault((p[0], p[1]), []).append(p)
-        progs = [p for p in progs if len(keys[(p[0], p[1])]) > 1]
-        if not progs:
-            continue
-        items.append("[%s %s]" % (argsform, " ".join(p[3] for p in progs)))
-        metas.append((vals, argsform, progs))
-    if not items:
+def run_units(chk, units, samples):
+    if not units:
         return
-    nprogs = sum(len(m[2]) for m in metas)
-    chunk = max(20, min(400, len(items) // 48 + 1))
+    t_start = chk.elapsed()
+    items = ["[%s %s]" % (u[3], " ".join(p[3] for p in u[4])) for u in units]
+    chunk = max(8, min(200, len(items) // 64 + 1))
     res = run_batch("fast", DRIVER, items, chunk=chunk, timeout=120)
     # engine work-around: after a worker death the batch runner may accept a cut-off last line as a
     # result; a result with the wrong shape is therefore re-run alone before anything is concluded
-    for i, ((status, text), m) in enumerate(zip(res, metas)):
-        if status == "OK" and not well_formed(text, len(m[2])):
-            res[i] = run_batch("fast", DRIVER, [items[i]], chunk=1, timeout=120)[0]
-    pname = "%s/%s" % (sname, f)
-    nviol = 0
-    for (vals, argsform, progs), (status, text) in zip(metas, res):
-        chk.add(states=1)
+    for i, ((status, text), u) in enumerate(zip(res, units)):
+        if (status == "OK" and not well_formed(text, len(u[4]))) or status in ("TIMEOUT", "CRASH"):
+            # a timeout of a whole chunk on a loaded machine is not a hang of the item: an item alone
+            # needs milliseconds, so only a second failure with a generous limit counts
+            res[i] = run_batch("fast", DRIVER, [items[i]], chunk=1, timeout=600)[0]
+    confirmed = set()
+
+    def confirm(i, text):
+        """a difference is reported only if a fresh process reproduces the item's result exactly"""
+        if i in confirmed:
+            return
+        again = run_batch("fast", DRIVER, [items[i]], chunk=1, timeout=600)[0]
+        if again != ("OK", text):
+            raise HarnessError("result of item %s is not reproducible: %r vs %r" % (items[i][:200], text[:300], again[1][:300]))
+        confirmed.add(i)
+    stats = {}
+    for ui, ((pname, f, vals, argsform, progs, first), (status, text)) in enumerate(zip(units, res)):
+        st = stats.setdefault(pname, dict(cases=0, programs=0, compared=0, differing=0))
+        if first:
+            chk.add(states=1)
+            st["cases"] += 1
+        st["programs"] += len(progs)
         if status != "OK":
             if status in ("CRASH", "TIMEOUT"):
-                chk.violation(sig="%s:%s" % (f, status.lower()),
+                chk.violation(sig="%s:%s" % (fname(f), status.lower()),
                               what="%s while running %s programs with arguments %s: %s" % (status, f, argsform, text[:300]),
                               replay_text=replay_text(f, vals, argsform, [(p[2] + "/" + p[1], p[3]) for p in progs],
                                                       "the interpreter died or hung on one of these programs"))
-                nviol += 1
+                st["differing"] += 1
                 continue
             raise HarnessError("driver error in %s for item %s: %s" % (pname, argsform, text))
         fields = text.split("\x1f")
@@ -271,9 +321,12 @@ def run_section(chk, sname, f, cases, samples):
                 k = mask_diff_kind(o3, ms[mi])
                 if k is None:
                     continue
-                nviol += 1
+                st["differing"] += 1
+                if "optpass:%s:%s" % (fname(f), k) not in SEEN_SIGS:
+                    SEEN_SIGS.add("optpass:%s:%s" % (fname(f), k))
+                    confirm(ui, text)
                 chk.violation(
-                    sig="optpass:%s:%s:mask%d:%s" % (f, p[2], MASKS[mi], k),
+                    sig="optpass:%s:%s" % (fname(f), k),
                     what="clean-up passes change behaviour (%s): %s args %s; with all passes: %s ; with (verif/opt-passes %d): %s"
                          % (k, p[3], argsform, o3, MASKS[mi], ms[mi]),
                     replay_text=replay_text(f, vals, argsform, [(p[2] + "/" + p[1], p[3])],
@@ -288,15 +341,20 @@ def run_section(chk, sname, f, cases, samples):
                 raise HarnessError("no reference program for %s %s %s" % (f, pat, ctx))
             got = outs[(pat, ctx, route)]
             k = diff_kind(ref, got)
-            chk.part(pname, compared=1)
+            st["compared"] += 1
             if k is None:
                 continue
-            nviol += 1
+            st["differing"] += 1
             reftext = [q[3] for q in progs if q[0] == pat and q[1] == ctx and q[2] == "ref"][0]
             sig = classify(f, vals, ctx, route, k, ref, got)
             if os.environ.get("C15_DUMP"):
                 with open(os.environ["C15_DUMP"], "a") as df:
                     df.write("%s\t%s\t%s\t%s\t%s\t%s\t%s\n" % (sig, k, ctx, route, ptext, got, ref))
+            if sig in SEEN_SIGS:
+                chk.violation(sig=sig, what="")       # counted (or known), already reported with a replay
+                continue
+            SEEN_SIGS.add(sig)
+            confirm(ui, text)
             chk.violation(
                 sig=sig,
                 what="route %s differs from the first-class route (%s) for %s arity %d in context %s: %s  args %s  => %s ;  "
@@ -304,12 +362,15 @@ def run_section(chk, sname, f, cases, samples):
                 replay_text=replay_text(f, vals, argsform, [("ref", reftext), (route, ptext)],
                                         "route %s of %s must behave like the first-class route (difference: %s)" % (route, f, k)),
                 replay_cmd="janet <file>")
-    chk.part(pname, cases=len(items), programs=nprogs, differing=nviol)
+    for pname, st in stats.items():
+        chk.part(pname, **st)
+        if os.environ.get("C15_TIMING"):
+            sys.stderr.write("%-28s %s\n" % (pname, st))
     if os.environ.get("C15_TIMING"):
-        sys.stderr.write("%-28s cases=%-6d programs=%-7d differing=%-5d t=%.1fs\n" % (pname, len(items), nprogs, nviol, chk.elapsed()))
-    if metas:
-        vals, argsform, progs = metas[len(metas) // 2]
-        samples.append({"section": pname, "args": argsform, "program": progs[-1][3]})
+        sys.stderr.write("batch of %d items / %d programs: %.1fs (t=%.1fs)\n" % (
+            len(items), sum(len(u[4]) for u in units), chk.elapsed() - t_start, chk.elapsed()))
+    u = units[len(units) // 2]
+    samples.append({"section": u[0], "args": u[3], "program": u[4][-1][3]})
 
 
 if __name__ == "__main__":
